@@ -22,6 +22,7 @@
                        out = "ok" | "fail" (binding sub-resource fails, rollback removes the labels) |
                        "faillabel" (multi-device pod: reserving the 2nd group fails after the 1st label was
                        written and the rollback fails too: the label stays)
+                       "failclaim" (claim pod: the API server refuses the status update of the ResourceClaim in PreBind)
                        "panic" (binder.Bind panics in the call of the binding sub-resource: the deferred recover of
                        Reconcile turns the panic into a failed attempt, NO rollback runs (the labels of a
                        fraction pod stay) and Reconcile always returns an error: the key is re-queued)
@@ -38,7 +39,26 @@
    `q[p]` is the controller-runtime work queue: a key is queued by a create/update event of the BindRequest,
    by a returned error and by RequeueAfter > 0; only queued keys are reconciled.
    `att`, `fl` are ghost counters of the current BindRequest incarnation: calls of the binding sub-resource
-   and failed reconciles.  `leaks` counts the attempts that left GPU group labels behind without a rollback
+   and failed reconciles.
+
+   Pod shape "claim" (cl[p] = 1): the pod asks for its GPU through ONE DRA resource claim (one device of class
+   gpu.nvidia.com); the node of such a scenario publishes its `gpus` GPUs as the devices 1..gpus of a ResourceSlice
+   (a DRA node takes no device-plugin GPU requests: every pod of the scenario is a claim pod, req = 100, counted as a
+   whole GPU by the node accounting).  For a claim pod `dev[p]` = the devices in
+   BindRequest.spec.resourceClaimAllocations (written by cache.Bind from what the DRA allocator chose), `lab[p]` = the
+   devices in the claim's status.allocation in the API - written by the binder's DynamicResources plugin in PreBind,
+   BEFORE the binding call, and NOT rolled back by a failed attempt (UnAllocate is a no-op: known finding of C11);
+   out = "failclaim": the API server refuses that status update - a failed attempt that leaves the claim unallocated.
+   `inf[p]` = the in-flight ("pending") allocation that the scheduler PROCESS remembers for the claim
+   (dynamicresources.assumePendingClaims -> SignalClaimPendingAllocation at session open, for every pod with a live
+   BindRequest whose claim is still unallocated in the API); it is what keeps the device of a request in flight out
+   of the DRA allocator's free set.  Constant InflightRule: "sticky" = the code as found (nothing ever calls
+   RemoveClaimPendingAllocation: the entry - and its device - stays for the life of the scheduler process, and a
+   pending pod whose unallocated claim has an entry is refused by the DRA PreFilter "in the process of being
+   allocated"), "session" = the design (the in-flight set of a session is exactly the live requests of its snapshot).
+   PodDeleted: the resource claim controller removes the reservation and deallocates the claim (lab[p] = {}).
+
+   `leaks` counts the attempts that left GPU group labels behind without a rollback
    ("faillabel", "panic" of a fraction pod) and is bounded by MaxLeaks; refused cycles and panics of whole-GPU
    pods need no counter (a refused cycle adds no request, every panic uses up one retry of the request).  backoffLimit: lim = -1 stands for nil.                                            *)
 EXTENDS Integers, FiniteSets, Sequences, TLC, Json
@@ -46,10 +66,11 @@ EXTENDS Integers, FiniteSets, Sequences, TLC, Json
 CONSTANTS Pods,          \* set of pod names (strings)
           Cap,           \* capacity of one GPU device in centi-GPU (100)
           Limits,        \* set of backoffLimit values, -1 = nil
-          ShapeSet,      \* set of [gpus, req, nd]: devices of the node, request per device and devices per pod
+          ShapeSet,      \* set of [gpus, req, nd, cl]: devices of the node, request per device, devices per pod, claim pod (0 | 1)
           PresentSet,    \* set of subsets of Pods: which pods exist in the scenario
           PersistSet,    \* subset of BOOLEAN: TRUE = every bind attempt of the scenario fails (C12_Terminates)
           PatchRule,     \* "phase" | "phase_or_attempts"
+          InflightRule,  \* "sticky" | "session" (claim pods only)
           AllowDrain,    \* BOOLEAN: StartDrain enabled
           FreshAny,      \* BOOLEAN: a new GPU group may get any unreferenced slot (trace) / the smallest (model checking)
           MaxSlot,
@@ -64,6 +85,7 @@ vars == <<S, obs, act>>
 View == <<S, obs>>
 
 PatchRules == {"phase", "phase_or_attempts"}
+InflightRules == {"sticky", "session", "withdrawn"}
 Slots == 1..MaxSlot
 NoObs == [k |-> "none"]
 NoBr(g) == [ex |-> FALSE, ph |-> "", fa |-> 0, gen |-> g]
@@ -85,6 +107,7 @@ LimEff(L) == IF L < 1 THEN 1 ELSE L            \* a nil/0 limit still sees the o
 
 (* ---- device accounting, parameterised by the set of charged pods T and their groups G ------------------- *)
 IsFrac(s, p) == s.req[p] < Cap
+IsClaim(s, p) == s.cl[p] = 1
 UsedBy(s, T, G(_, _), d) == SumOver(s.req, {p \in T : IsFrac(s, p) /\ d \in G(s, p)})
 SharedBy(s, T, G(_, _)) == {d \in Slots : UsedBy(s, T, G, d) > 0}
 WholeBy(s, T) == Cardinality({p \in T : ~IsFrac(s, p)})
@@ -100,10 +123,24 @@ OnNode(s, p) == StatusOf(s, p) \in {"Bound", "Binding"}
 ChargedSet(s) == {p \in Pods : s.up /\ OnNode(s, p)}
 \* updatePodAdditionalFields: the groups of a pod whose BindRequest is in the snapshot's map come from the request
 InMap(s, p) == s.up /\ Live(s.br[p], s.lim)
-GroupsOf(s, p) == IF ~s.alive[p] THEN {} ELSE IF InMap(s, p) /\ s.dev[p] # {} THEN s.dev[p] ELSE s.lab[p]
-SnapOf(s) == [st |-> [p \in Pods |-> StatusOf(s, p)],
+GroupsOf(s, p) == IF ~s.alive[p] \/ IsClaim(s, p) THEN {} ELSE IF InMap(s, p) /\ s.dev[p] # {} THEN s.dev[p] ELSE s.lab[p]
+\* claim pods.  assumePendingClaims at session open: in-flight allocations of the pods with a live request in the snapshot
+\* whose claim is unallocated in the API; under the rule "sticky" every older entry stays
+InfPost(s, r) == [p \in Pods |-> IF IsClaim(s, p) /\ s.alive[p] /\ InMap(s, p) /\ s.lab[p] = {} THEN s.dev[p]
+                                 ELSE IF r = "sticky" THEN s.inf[p] ELSE {}]
+\* the devices the DRA manager counts as allocated (allocator, DRA filter): claims allocated in the API, in-flight
+\* allocations, and - within a cycle - the claims the cycle has allocated itself (assume cache; they are in the new requests)
+HeldBy(s, p) == IF ~IsClaim(s, p) THEN {} ELSE s.lab[p] \cup s.inf[p] \cup (IF s.alive[p] /\ InMap(s, p) THEN s.dev[p] ELSE {})
+UsedDevs(s) == UNION {HeldBy(s, p) : p \in Pods}
+\* PodInfo.ResourceClaimInfo: the allocation of the claim in the API, overridden by the one in a live request (a pod that
+\* is bound to a node the snapshot does not have gets a record without claims: getPodInfo -> NewTaskInfo(pod, nil))
+PclOf(s, p) == IF ~s.alive[p] \/ ~IsClaim(s, p) \/ (s.bound[p] /\ ~s.up) THEN {} ELSE IF InMap(s, p) /\ s.dev[p] # {} THEN s.dev[p] ELSE s.lab[p]
+SnapOf(s, r) ==
+             [st |-> [p \in Pods |-> StatusOf(s, p)],
               on |-> [p \in Pods |-> OnNode(s, p)],
               grp |-> [p \in Pods |-> GroupsOf(s, p)],
+              pcl |-> [p \in Pods |-> PclOf(s, p)],
+              used |-> UNION {IF IsClaim(s, p) THEN s.lab[p] \cup InfPost(s, r)[p] ELSE {} : p \in Pods},
               mem |-> [d \in Slots |-> IF s.up THEN UsedBy(s, ChargedSet(s), GroupsOf, d) ELSE 0],
               whole |-> IF s.up THEN IdleWholeBy(s, ChargedSet(s), GroupsOf) ELSE 0,
               idle |-> IF s.up THEN IdleBy(s, ChargedSet(s), GroupsOf) ELSE 0,
@@ -128,7 +165,15 @@ FracPlacements(s, p) ==
 Placed(s, p, D) ==
   [s EXCEPT !.br[p] = [ex |-> TRUE, ph |-> "", fa |-> 0, gen |-> 1 - s.br[p].gen],
             !.dev[p] = D, !.q[p] = TRUE, !.att[p] = 0, !.fl[p] = 0]
-Place(s, p) == IF IsFrac(s, p) THEN {Placed(s, p, D) : D \in FracPlacements(s, p)}
+\* a claim pod: a whole idle GPU by the node's count, and a device: the one its claim holds in the API, else - unless the
+\* claim has an in-flight allocation (DRA PreFilter: "in the process of being allocated") - the first free device
+ClaimPlacements(s, p) ==
+  IF s.lab[p] # {} THEN {s.lab[p]}
+  ELSE IF s.inf[p] # {} THEN {}
+  ELSE LET free == (1..s.gpus) \ UsedDevs(s) IN
+       IF free = {} THEN {} ELSE IF FreshAny THEN {{d} : d \in free} ELSE {SmallestN(free, 1)}
+Place(s, p) == IF IsClaim(s, p) THEN (IF IdleWholeBy(s, ChargedSet(s), GroupsOf) >= 1 THEN {Placed(s, p, D) : D \in ClaimPlacements(s, p)} ELSE {})
+               ELSE IF IsFrac(s, p) THEN {Placed(s, p, D) : D \in FracPlacements(s, p)}
                ELSE IF IdleWholeBy(s, ChargedSet(s), GroupsOf) >= 1 THEN {Placed(s, p, {})} ELSE {}
 \* the allocate action tries the pending pods one after the other in its own order; a pod that fits is placed
 RECURSIVE Alloc(_, _)
@@ -141,7 +186,11 @@ CleanedSet(s, T) ==
             !.att = [p \in Pods |-> IF p \in T THEN 0 ELSE s.att[p]],
             !.fl = [p \in Pods |-> IF p \in T THEN 0 ELSE s.fl[p]]]
 Cleaned(s) == CleanedSet(s, Stale(s))
-CyclePosts(s) == IF ~s.up THEN {Cleaned(s)} ELSE Alloc(Cleaned(s), PendingSet(s))
+\* rule "withdrawn" (the code since fix G49): the cycle sees the in-flight allocations of the live requests like rule
+\* "session", and the plugin withdraws them from the shared DRA manager when the session closes
+CyclePosts(s, r) == LET s1 == [s EXCEPT !.inf = InfPost(s, r)]
+                        posts == IF ~s.up THEN {Cleaned(s1)} ELSE Alloc(Cleaned(s1), PendingSet(s1))
+                    IN IF r = "withdrawn" THEN {[t EXCEPT !.inf = [p \in Pods |-> {}]] : t \in posts} ELSE posts
 \* the cycle in which the API server refuses the DELETE of the stale requests R: cleanStaleBindRequest issues every
 \* DELETE (goroutines), the ones that are not refused go through; its error fails Snapshot/OpenSession: no allocation
 RefusedSet(s, p) == IF p = "" THEN Stale(s) ELSE {p} \cap Stale(s)
@@ -159,7 +208,8 @@ BinderRuns(s, p, out, rule) ==
   ELSE
     LET reach == Reach(s, p)
         leak == reach /\ out = "faillabel" /\ IsFrac(s, p) /\ s.nd[p] = 2
-        bindCalled == reach /\ ~leak
+        claimRefused == reach /\ out = "failclaim"      \* PreBind: the status update of the claim is refused
+        bindCalled == reach /\ ~leak /\ ~claimRefused
         panic == bindCalled /\ out = "panic"       \* raised inside the call of the binding sub-resource
         errc == IF ~s.alive[p] THEN TRUE          \* Get pod: NotFound
                 ELSE IF s.bound[p] THEN FALSE     \* pod already bound: success without binding
@@ -171,7 +221,8 @@ BinderRuns(s, p, out, rule) ==
         phN == IF errc THEN "Failed" ELSE "Succeeded"
         changed == phN # b.ph \/ (rule = "phase_or_attempts" /\ faN # b.fa)   \* else: early return, nothing patched, error swallowed
         bN == IF changed THEN [b EXCEPT !.ph = phN, !.fa = faN] ELSE b
-        labs == IF ~reach \/ ~IsFrac(s, p) THEN {s.lab[p]}
+        labs == IF reach /\ IsClaim(s, p) THEN {IF claimRefused \/ s.lab[p] # {} THEN s.lab[p] ELSE s.dev[p]}   \* written in PreBind, never rolled back
+                ELSE IF ~reach \/ ~IsFrac(s, p) THEN {s.lab[p]}
                 ELSE IF leak THEN {Labelled(s, p, d) : d \in s.dev[p]}     \* one label written, rollback failed
                 ELSE IF errc /\ ~panic THEN {{}}                            \* rollback removed the group labels
                 ELSE {s.dev[p]}                  \* every selected group labelled, then bound | bind panicked: no rollback
@@ -192,7 +243,7 @@ BinderRuns(s, p, out, rule) ==
 PanicEnabled(s, p) == Reach(s, p)
 StatusLostEnabled(s, p) == s.q[p] /\ Reach(s, p)
 StatusLostPost(s, p) == [s EXCEPT !.bound[p] = TRUE, !.att[p] = Sat(s.att[p] + 1), !.q[p] = FALSE,
-                                  !.lab[p] = IF IsFrac(s, p) THEN s.dev[p] ELSE s.lab[p]]
+                                  !.lab[p] = IF IsFrac(s, p) \/ (IsClaim(s, p) /\ s.lab[p] = {}) THEN s.dev[p] ELSE s.lab[p]]
 RestartPost(s) == [s EXCEPT !.q = [p \in Pods |-> s.br[p].ex], !.restarts = s.restarts + 1]
 CrashEnabled(s, p) == s.q[p] /\ Reach(s, p) /\ IsFrac(s, p) /\ s.dev[p] \ s.lab[p] # {}
 CrashPosts(s, p) == {[RestartPost(s) EXCEPT !.lab[p] = Labelled(s, p, d)] : d \in s.dev[p] \ s.lab[p]}
@@ -202,7 +253,7 @@ DrainPost(s) == [RestartPost(s) EXCEPT !.drain = TRUE]
 
 (* ---- the model -------------------------------------------------------------------------------------------- *)
 InitState(L, sh, present, persist) ==
-  [lim |-> L, gpus |-> sh.gpus, req |-> sh.req, nd |-> sh.nd, persist |-> persist, drain |-> FALSE,
+  [lim |-> L, gpus |-> sh.gpus, req |-> sh.req, nd |-> sh.nd, cl |-> sh.cl, inf |-> [p \in Pods |-> {}], persist |-> persist, drain |-> FALSE,
    up |-> TRUE, flips |-> 0, restarts |-> 0, leaks |-> 0,
    alive |-> [p \in Pods |-> p \in present], bound |-> [p \in Pods |-> FALSE],
    br |-> [p \in Pods |-> NoBr(0)], dev |-> [p \in Pods |-> {}], lab |-> [p \in Pods |-> {}],
@@ -213,8 +264,8 @@ Init == /\ \E L \in Limits, sh \in ShapeSet, present \in PresentSet, persist \in
         /\ obs = NoObs /\ act = NoAct("Init", "", "")
 
 SchedCycle ==
-  /\ \E post \in CyclePosts(S) : S' = post
-  /\ obs' = [k |-> "cycle", pre |-> S, snap |-> SnapOf(S)]
+  /\ \E post \in CyclePosts(S, InflightRule) : S' = post
+  /\ obs' = [k |-> "cycle", pre |-> S, snap |-> SnapOf(S, InflightRule)]
   /\ act' = NoAct("SchedCycle", "", "")
 
 \* p = "" (every stale request refused) is only a label of its own when there are at least two stale requests
@@ -232,6 +283,7 @@ BinderAttempt(p, out) ==
   /\ ~Reach(S, p) => out = (IF S.persist THEN "fail" ELSE "ok")
   /\ out = "faillabel" => Reach(S, p) /\ IsFrac(S, p) /\ S.nd[p] = 2 /\ S.leaks < MaxLeaks
   /\ out = "panic" => PanicEnabled(S, p) /\ (IsFrac(S, p) => S.leaks < MaxLeaks)
+  /\ out = "failclaim" => Reach(S, p) /\ IsClaim(S, p)
   /\ \E r \in BinderRuns(S, p, out, PatchRule) : S' = r.post
   /\ obs' = NoObs /\ act' = NoAct("BinderAttempt", p, out)
 
@@ -275,7 +327,7 @@ StartDrain ==
   /\ S' = DrainPost(S)
   /\ obs' = NoObs /\ act' = NoAct("StartDrain", "", "")
 
-BinderStep(p) == \E out \in {"ok", "fail", "faillabel", "panic"} : BinderAttempt(p, out)
+BinderStep(p) == \E out \in {"ok", "fail", "faillabel", "panic", "failclaim"} : BinderAttempt(p, out)
 Next == \/ SchedCycle \/ SchedCycleRefused("") \/ BinderRestart \/ NodeDeleted \/ NodeAdded \/ StartDrain
         \/ \E p \in Pods : SchedCycleRefused(p) \/ BinderStep(p) \/ BindDoneStatusLost(p) \/ BinderCrashAfterLabel(p) \/ PodDeleted(p) \/ GcBr(p)
 
@@ -285,7 +337,8 @@ FairSpec == Spec /\ WF_vars(SchedCycle) /\ \A p \in Pods : WF_vars(BinderStep(p)
 (* ---- types ------------------------------------------------------------------------------------------------- *)
 BrType == [ex : BOOLEAN, ph : {"", "Failed", "Succeeded"}, fa : 0..MaxAtt, gen : {0, 1}]
 TypeOK ==
-  /\ S.lim \in Limits /\ [gpus |-> S.gpus, req |-> S.req, nd |-> S.nd] \in ShapeSet
+  /\ S.lim \in Limits /\ [gpus |-> S.gpus, req |-> S.req, nd |-> S.nd, cl |-> S.cl] \in ShapeSet
+  /\ S.inf \in [Pods -> SUBSET Slots]
   /\ S.persist \in BOOLEAN /\ S.drain \in BOOLEAN /\ S.up \in BOOLEAN
   /\ S.flips \in 0..MaxFlips /\ S.restarts \in 0..(MaxRestarts + 1) /\ S.leaks \in 0..MaxLeaks
   /\ S.alive \in [Pods -> BOOLEAN] /\ S.bound \in [Pods -> BOOLEAN] /\ S.q \in [Pods -> BOOLEAN]
@@ -315,10 +368,30 @@ C12_Charged ==
     /\ pre.up => /\ snap.idle = IdleBy(pre, Promised(pre), TruthGroups) /\ snap.idle >= 0
                  /\ \A d \in Slots : snap.mem[d] = UsedBy(pre, Promised(pre), TruthGroups, d)
                  /\ snap.whole = IdleWholeBy(pre, Promised(pre), TruthGroups)
+\* the devices a state promises to the claim of a pod: what the claim holds in the API and, while the request lives, what
+\* the request hands to it (declarative truth, written without the scheduler's in-flight bookkeeping)
+TruthDevs(s, p) == IF ~IsClaim(s, p) THEN {}
+                   ELSE s.lab[p] \cup (IF s.alive[p] /\ s.up /\ Live(s.br[p], s.lim) THEN s.dev[p] ELSE {})
+\* every cycle treats the claimed devices as taken: the devices of a live request (not started, failed k times and
+\* retrying, bound with the status lost ...) and of the claims allocated in the API are in the set the DRA allocator
+\* and the DRA filter work from, and the pod's own record carries the devices of its request
+C12_ChargedDevices ==
+  obs.k = "cycle" =>
+    \A p \in Pods : IsClaim(obs.pre, p) =>
+       /\ obs.pre.lab[p] \subseteq obs.snap.used
+       /\ (obs.pre.up /\ obs.pre.alive[p] /\ Live(obs.pre.br[p], obs.pre.lim))
+             => /\ obs.pre.dev[p] \subseteq obs.snap.used
+                /\ obs.pre.dev[p] # {} => obs.snap.pcl[p] = obs.pre.dev[p]
+\* ... and after a terminal outcome (request deleted / terminally failed / node or pod gone) the device is free again:
+\* nothing but claims allocated in the API and live requests holds a device.  The scheduler as found did not do this
+\* (InflightRule "sticky", finding G49, fixed): not judged when the check is told to follow that rule
+DevicesFreed == obs.k = "cycle" => obs.snap.used \subseteq UNION {TruthDevs(obs.pre, p) : p \in Pods}
+C12_DevicesFreed == InflightRule \in {"session", "withdrawn"} => DevicesFreed
 \* ... so no later cycle hands the capacity out again
 C12_NoDoubleBooking ==
-  S.up => /\ \A d \in Slots : UsedBy(S, Promised(S), TruthGroups, d) <= Cap
-          /\ IdleWholeBy(S, Promised(S), TruthGroups) >= 0
+  /\ S.up => /\ \A d \in Slots : UsedBy(S, Promised(S), TruthGroups, d) <= Cap
+             /\ IdleWholeBy(S, Promised(S), TruthGroups) >= 0
+  /\ \A p, q \in Pods : p # q => TruthDevs(S, p) \cap TruthDevs(S, q) = {}
 
 \* a request for a deleted node is deleted by the next cycle and its pod is schedulable (Pending) again
 C12_DeletedNode ==
@@ -353,7 +426,8 @@ C12_FailedObservable ==
 Quiescent(s) ==
   /\ \A p \in Pods : /\ ~s.q[p]
                      /\ s.br[p].ex => s.br[p].ph = "Succeeded" /\ s.bound[p] /\ s.alive[p]
-  /\ s.up => \A p \in Pods : (s.alive[p] /\ ~s.bound[p]) => Place(s, p) = {}
+  /\ s.up => LET t == [s EXCEPT !.inf = InfPost(s, InflightRule)] IN
+             \A p \in Pods : (s.alive[p] /\ ~s.bound[p]) => Place(t, p) = {}
 
 \* temporal: under persistent failure every request becomes observably failed (or disappears)
 Unsettled(p) == S.br[p].ex /\ S.br[p].ph # "Succeeded" /\ ~Terminal(S.br[p], S.lim)
